@@ -29,7 +29,7 @@ use domain::dnssec::sign::signatures::rrsigs::sign_rrset;
 use domain::dnssec::sign::traits::SignableZoneInPlace;
 use domain::dnssec::sign::SigningConfig;
 use domain::dnssec::validator::anchor::TrustAnchors;
-use domain::dnssec::validator::context::{ValidationContext, ValidationState};
+use domain::dnssec::validator::context::{Config as VConfig, ValidationContext, ValidationState};
 use domain::net::client::request::{
     ComposeRequest, Error as ReqError, GetResponse, RequestMessage, SendRequest,
 };
@@ -62,6 +62,7 @@ const T_RRSIG: u16 = 46;
 const T_NSEC: u16 = 47;
 const T_DNSKEY: u16 = 48;
 const T_NSEC3: u16 = 50;
+const T_DNAME: u16 = 39;
 
 /// Upstream-query budget per validation (the unfaulted runs need <= 6).
 const BUDGET: usize = 64;
@@ -75,6 +76,7 @@ fn tname(t: u16) -> String {
         15 => "MX".into(),
         16 => "TXT".into(),
         28 => "AAAA".into(),
+        39 => "DNAME".into(),
         43 => "DS".into(),
         46 => "RRSIG".into(),
         47 => "NSEC".into(),
@@ -268,6 +270,18 @@ fn ds_rdata(owner: &Labels, dnskey: &[u8]) -> Vec<u8> {
     v.push(2);
     v.extend_from_slice(&sha256(&buf));
     v
+}
+
+/// Zone-file text of the DS RDATA for a DNSKEY RDATA at `owner`; digest type 1 (SHA-1), 2 (SHA-256) or 4 (SHA-384).
+fn ds_text(owner: &Labels, dnskey: &[u8], dtype: u8) -> String {
+    let mut buf = lower_wire(owner);
+    buf.extend_from_slice(dnskey);
+    let d = match dtype {
+        1 => sha1(&buf),
+        2 => sha256(&buf),
+        _ => ring::digest::digest(&ring::digest::SHA384, &buf).as_ref().to_vec(),
+    };
+    format!("{} {} {} {}", key_tag(dnskey), dnskey[3], dtype, hex(&d))
 }
 
 // ------------------------------------------------------------ zone model
@@ -568,6 +582,8 @@ struct Hier {
     forged: Option<(Arc<SKey>, Vec<u8>)>,
     /// zone.tld's DNSKEY RRset lists a second, non-signing key with the same algorithm and key tag first
     decoy: bool,
+    /// per zone (root, tld., zone.tld.): DNSKEY RDATA in zone-file text and in wire form
+    key_texts: Vec<(String, Vec<u8>)>,
 }
 
 #[derive(Clone)]
@@ -600,8 +616,9 @@ fn gen_key(apex: &str) -> (Arc<SKey>, Vec<u8>) {
 fn build_hier(spec: Spec, now: u32) -> Hier {
     let Spec { name, kind, nsec3, opt_out, decoy, extra, zone_denial, records_changed, zsk } = spec;
     let (k_root, rd_root, ta) = load_key("008+60616", &nm("."));
-    let (k_tld, rd_tld, _) = load_key("010+46731", &nm("tld."));
-    let (k_zone, rd_zone, _) = load_key("013+42253", &nm("zone.tld."));
+    let (k_tld, rd_tld, ta_tld) = load_key("010+46731", &nm("tld."));
+    let (k_zone, rd_zone, ta_zone) = load_key("013+42253", &nm("zone.tld."));
+    let key_texts = vec![(ta.clone(), rd_root.clone()), (ta_tld, rd_tld.clone()), (ta_zone, rd_zone.clone())];
     let den = |salt: &[u8], iters: u16, oo: bool| {
         if nsec3 {
             Denial::Nsec3 { salt: salt.to_vec(), iters, opt_out: oo }
@@ -644,6 +661,10 @@ fn build_hier(spec: Spec, now: u32) -> Hier {
         r_cname("cn.zone.tld.", "www.zone.tld."),
         r_cname("ext.zone.tld.", "www.tld."),
         r_cname("*.wc.zone.tld.", "www.zone.tld."),
+        r_cname("c1.zone.tld.", "www.zone.tld."),
+        r_cname("c2.zone.tld.", "c1.zone.tld."),
+        r_cname("c3.zone.tld.", "c2.zone.tld."),
+        rec("d.zone.tld.", ZoneRecordData::Dname(domain::rdata::Dname::new(lname(&nm("w.zone.tld."))))),
     ];
     if records_changed {
         zone.push(r_a("nx.zone.tld.", 50));
@@ -723,6 +744,7 @@ fn build_hier(spec: Spec, now: u32) -> Hier {
         now,
         forged,
         decoy,
+        key_texts,
     };
     h.sanity();
     h
@@ -737,12 +759,14 @@ enum Truth {
     /// kind: 0 name exists, 1 empty non-terminal, 2 wildcard
     NoData { zone: usize, kind: u8, ce: Labels },
     NxDomain { zone: usize, ce: Labels },
+    /// the name lies below the owner (key) of a DNAME; target = the name after substitution
+    Dname { zone: usize, owner: Labels, target: Labels },
 }
 
 impl Truth {
     fn zone(&self) -> usize {
         match self {
-            Truth::Pos { zone, .. } | Truth::Cname { zone, .. } | Truth::NoData { zone, .. } | Truth::NxDomain { zone, .. } => *zone,
+            Truth::Pos { zone, .. } | Truth::Cname { zone, .. } | Truth::NoData { zone, .. } | Truth::NxDomain { zone, .. } | Truth::Dname { zone, .. } => *zone,
         }
     }
     fn short(&self) -> &'static str {
@@ -756,6 +780,7 @@ impl Truth {
             Truth::NoData { kind: 1, .. } => "nodata-ent",
             Truth::NoData { .. } => "nodata-wildcard",
             Truth::NxDomain { .. } => "nxdomain",
+            Truth::Dname { .. } => "dname",
         }
     }
 }
@@ -790,6 +815,16 @@ impl Hier {
         let zi = self.zone_for(qname, qtype);
         let z = &self.zones[zi];
         let k = key(qname);
+        // RFC 6672: a name below the owner of a DNAME is redirected
+        let apex_len = key(&z.apex).len();
+        for n in (apex_len..k.len()).rev() {
+            let anc: Labels = k[..n].to_vec();
+            if let Some((_, rds)) = z.sets.get(&(anc.clone(), T_DNAME)) {
+                let mut target: Labels = qname[..qname.len() - n].to_vec();
+                target.extend(name_in_rdata(&rds[0], 0));
+                return Truth::Dname { zone: zi, owner: anc, target };
+            }
+        }
         if z.has(&k, qtype) {
             return Truth::Pos { zone: zi, src: k.clone(), wildcard: false, ce: k };
         }
@@ -979,6 +1014,16 @@ impl Hier {
                     r.push_set(self, 0, zi, &src, &name, T_CNAME);
                     if wildcard && z.secure {
                         self.wildcard_proof(&mut r, zi, &name, &ce);
+                    }
+                    name = target;
+                }
+                Truth::Dname { owner, target, .. } => {
+                    let o = unkey(&owner);
+                    r.push_set(self, 0, zi, &owner, &o, T_DNAME);
+                    {
+                        // the synthesized CNAME is not signed
+                        let ttl = z.sets.get(&(owner.clone(), T_DNAME)).map(|s| s.0).unwrap_or(0);
+                        r.push(0, Rr { owner: name.clone(), rtype: T_CNAME, class: 1, ttl, rdata: wire(&target) }, (zi, key(&name), T_CNAME));
                     }
                     name = target;
                 }
@@ -1233,6 +1278,8 @@ struct Upstream {
     main: bool,
     /// AD bit of the main answer as the (lying or validating) upstream sends it
     main_ad: bool,
+    /// the main answer carries an OPT record (EDNS, DO set), as a real upstream's answer to a DO query does
+    main_opt: bool,
 }
 
 impl Upstream {
@@ -1248,6 +1295,9 @@ impl Upstream {
         if resp.up_err {
             self.st.altered.fetch_add(1, AO::Relaxed);
             return Err(ReqError::ConnectionClosed);
+        }
+        if self.main && self.main_opt {
+            resp.push(2, Rr { owner: vec![], rtype: 41, class: 1232, ttl: 0x0000_8000, rdata: vec![] }, (0, vec![], 41));
         }
         let mut bytes = resp.encode();
         if self.main && self.main_ad && bytes.len() > 3 {
@@ -1332,8 +1382,8 @@ fn state_name(s: ValidationState) -> &'static str {
 /// One execution through `ValidationContext::validate_msg`.
 fn run_direct(h: &Arc<Hier>, q: &Query, faults: &Arc<Vec<Fault>>) -> Exec {
     let st = Arc::new(UpState::default());
-    let up = Upstream { h: h.clone(), faults: faults.clone(), st: st.clone(), main: false, main_ad: false };
-    let mainup = Upstream { h: h.clone(), faults: faults.clone(), st: st.clone(), main: true, main_ad: false };
+    let up = Upstream { h: h.clone(), faults: faults.clone(), st: st.clone(), main: false, main_ad: false, main_opt: false };
+    let mainup = Upstream { h: h.clone(), faults: faults.clone(), st: st.clone(), main: true, main_ad: false, main_opt: false };
     let mut ex = Exec { verdict: Verdict::NoMessage, ede: String::new(), out: vec![], input: vec![], calls: 0, over_budget: false, asked: vec![], altered: 0 };
     let main = mainup.respond(&q.name, q.qtype);
     let main = match main {
@@ -1370,8 +1420,8 @@ fn run_direct(h: &Arc<Hier>, q: &Query, faults: &Arc<Vec<Fault>>) -> Exec {
 /// SERVFAIL are the observations).
 fn run_conn(h: &Arc<Hier>, q: &Query, faults: &Arc<Vec<Fault>>) -> Exec {
     let st = Arc::new(UpState::default());
-    let up = Upstream { h: h.clone(), faults: faults.clone(), st: st.clone(), main: false, main_ad: false };
-    let mainup = Upstream { h: h.clone(), faults: faults.clone(), st: st.clone(), main: true, main_ad: false };
+    let up = Upstream { h: h.clone(), faults: faults.clone(), st: st.clone(), main: false, main_ad: false, main_opt: false };
+    let mainup = Upstream { h: h.clone(), faults: faults.clone(), st: st.clone(), main: true, main_ad: false, main_opt: false };
     let mut ex = Exec { verdict: Verdict::NoMessage, ede: String::new(), out: vec![], input: vec![], calls: 0, over_budget: false, asked: vec![], altered: 0 };
     let mut qr = Resp::new(&q.name, q.qtype);
     qr.rcode = 0;
@@ -1428,7 +1478,7 @@ fn run_across_expiry(h: &Arc<Hier>) -> Option<(Verdict, Verdict, u32)> {
     }
     let bytes = resp.encode();
     let st = Arc::new(UpState::default());
-    let up = Upstream { h: h.clone(), faults: Arc::new(vec![]), st, main: false, main_ad: false };
+    let up = Upstream { h: h.clone(), faults: Arc::new(vec![]), st, main: false, main_ad: false, main_opt: false };
     let ta = TrustAnchors::from_u8(h.ta_text.as_bytes()).expect("trust anchor");
     let vc = ValidationContext::new(ta, up);
     let once = |vc: &ValidationContext<Upstream>| {
@@ -1462,7 +1512,7 @@ fn validate_bytes(vc: &ValidationContext<Upstream>, bytes: &[u8]) -> (Verdict, V
 }
 
 fn fresh_context(h: &Arc<Hier>) -> ValidationContext<Upstream> {
-    let up = Upstream { h: h.clone(), faults: Arc::new(vec![]), st: Arc::new(UpState::default()), main: false, main_ad: false };
+    let up = Upstream { h: h.clone(), faults: Arc::new(vec![]), st: Arc::new(UpState::default()), main: false, main_ad: false, main_opt: false };
     ValidationContext::new(TrustAnchors::from_u8(h.ta_text.as_bytes()).expect("trust anchor"), up)
 }
 
@@ -1654,6 +1704,18 @@ fn lacking_cause(h: &Hier, p: &Parsed, s: usize, ok: &Labels, t: u16, kinds: &st
     }
 }
 
+/// Is (owner, CNAME, rdatas) exactly the CNAME that RFC 6672 synthesizes from an authentic DNAME of a secure zone?
+/// Such a CNAME is not signed; it is authenticated by the DNAME.
+fn dname_synthesized(h: &Hier, ownerk: &Labels, t: u16, rds: &[Vec<u8>]) -> bool {
+    if t != T_CNAME || rds.len() != 1 {
+        return false;
+    }
+    match h.classify(&unkey(ownerk), T_CNAME) {
+        Truth::Dname { zone, target, .. } => h.zones[zone].secure && rds[0] == lower_wire(&target),
+        _ => false,
+    }
+}
+
 /// The Secure => authentic part of the oracle.
 fn check_secure(h: &Hier, out: &[u8], kinds: &str) -> Vec<Finding> {
     let mut f = vec![];
@@ -1670,6 +1732,16 @@ fn check_secure(h: &Hier, out: &[u8], kinds: &str) -> Vec<Finding> {
             }
             let owner = unkey(ok);
             let sec = ["answer", "authority"][s];
+            if dname_synthesized(h, ok, *t, rds) {
+                // must come with the DNAME it was made from
+                let dn = match h.classify(&owner, T_CNAME) {
+                    Truth::Dname { owner, .. } => owner,
+                    _ => unreachable!(),
+                };
+                if p.sets[s].iter().any(|x| x.0 == (dn.clone(), T_DNAME)) {
+                    continue;
+                }
+            }
             if !h.authentic(ok, *t, rds) {
                 f.push(Finding {
                     sig: format!("C14|validator|secure-with-rrset-lacking-valid-chain|{}|section={sec}", lacking_cause(h, &p, s, ok, *t, kinds)),
@@ -1711,7 +1783,19 @@ fn check_secure(h: &Hier, out: &[u8], kinds: &str) -> Vec<Finding> {
         let k = (key(&sname), T_CNAME);
         match p.sets[0].iter().find(|x| x.0 == k) {
             Some(e) if e.1.len() == 1 => sname = name_in_rdata(&e.1[0], 0),
-            _ => break,
+            _ => {
+                // a DNAME in the answer redirects the name also without the (optional) synthesized CNAME
+                let sk = key(&sname);
+                let dn = p.sets[0].iter().find(|x| x.0 .1 == T_DNAME && x.1.len() == 1 && is_desc(&sk, &x.0 .0));
+                match dn {
+                    Some(e) => {
+                        let mut t: Labels = sname[..sname.len() - e.0 .0.len()].to_vec();
+                        t.extend(name_in_rdata(&e.1[0], 0));
+                        sname = t;
+                    }
+                    None => break,
+                }
+            }
         }
     }
     let has_answer = p.sets[0].iter().any(|x| x.0 == (key(&sname), p.qtype));
@@ -1721,7 +1805,7 @@ fn check_secure(h: &Hier, out: &[u8], kinds: &str) -> Vec<Finding> {
         return f;
     }
     if p.rcode == 0 && !has_answer {
-        if matches!(truth, Truth::Pos { .. } | Truth::Cname { .. }) {
+        if matches!(truth, Truth::Pos { .. } | Truth::Cname { .. } | Truth::Dname { .. }) {
             f.push(Finding {
                 sig: format!("C14|validator|secure-false-negative-claim|fault={kinds}|claim=nodata|truth={}", truth.short()),
                 what: format!("Secure reported for a NODATA response for {} {} although the authentic zone has {}", show(&sname), tname(p.qtype), truth.short()),
@@ -1982,7 +2066,7 @@ fn expected_unmodified(h: &Hier, q: &Query) -> Vec<&'static str> {
             any_insecure = true;
         }
         match t {
-            Truth::Cname { target, .. } => name = target,
+            Truth::Cname { target, .. } | Truth::Dname { target, .. } => name = target,
             Truth::NoData { zone, .. } | Truth::NxDomain { zone, .. } if matches!(h.zones[zone].denial, Denial::Nsec3 { opt_out: true, .. }) => {
                 // negative answers of an opt-out zone: RFC 5155 9.2 says not AD when the covering
                 // NSEC3 has Opt-Out; the property text does not decide
@@ -2953,10 +3037,10 @@ fn history_allowed(first: &Hier, later: &Hier) -> bool {
 /// One request through `net::client::validator::Connection` with the given request flags; the
 /// upstream's answer carries AD = `up_ad`.  `ta`: trust anchor text (empty: no trust anchor).
 /// Returns (reply or error text, the message the upstream delivered).
-fn run_conn_flags(h: &Arc<Hier>, q: &Query, faults: &Arc<Vec<Fault>>, ta: &str, ad: bool, dok: bool, cd: bool, up_ad: bool) -> (Result<Vec<u8>, String>, Vec<u8>) {
+fn run_conn_flags(h: &Arc<Hier>, q: &Query, faults: &Arc<Vec<Fault>>, ta: &str, ad: bool, dok: bool, cd: bool, up_ad: bool, up_opt: bool) -> (Result<Vec<u8>, String>, Vec<u8>) {
     let st = Arc::new(UpState::default());
-    let up = Upstream { h: h.clone(), faults: faults.clone(), st: st.clone(), main: false, main_ad: false };
-    let mainup = Upstream { h: h.clone(), faults: faults.clone(), st, main: true, main_ad: up_ad };
+    let up = Upstream { h: h.clone(), faults: faults.clone(), st: st.clone(), main: false, main_ad: false, main_opt: false };
+    let mainup = Upstream { h: h.clone(), faults: faults.clone(), st, main: true, main_ad: up_ad, main_opt: up_opt };
     let delivered = mainup.respond(&q.name, q.qtype).map(|m| m.as_slice().to_vec()).unwrap_or_default();
     let mut qb = Resp::new(&q.name, q.qtype).encode();
     qb[2] = 0x01;
@@ -2964,7 +3048,7 @@ fn run_conn_flags(h: &Arc<Hier>, q: &Query, faults: &Arc<Vec<Fault>>, ta: &str, 
     let tas = if ta.is_empty() { TrustAnchors::empty() } else { TrustAnchors::from_u8(ta.as_bytes()).expect("trust anchor") };
     let r = guard(|| {
         let vc = Arc::new(ValidationContext::new(tas, up));
-        let conn = cval::Connection::<Upstream, Vec<u8>, Upstream>::new(mainup, vc);
+        let conn = cval::Connection::<Upstream, Vec<u8>, Upstream>::with_config(mainup, vc, cval::Config::new());
         let mut req = RequestMessage::new(Message::from_octets(qb).expect("query")).expect("request");
         if dok {
             req.set_dnssec_ok(true);
@@ -3103,11 +3187,311 @@ fn reuse_specials(ctx: &Ctx, stats: &Stats, h: &Arc<Hier>, only: Option<&str>) -
     Value::Object(out)
 }
 
+// ------------------------------------------------------------ trust anchor forms and non-default Config
+
+/// Trust anchors from zone-file lines through one of the three construction routes.
+fn build_ta(lines: &[String], route: u8) -> TrustAnchors {
+    let text = lines.join("\n");
+    match route {
+        0 => TrustAnchors::from_u8(text.as_bytes()).expect("from_u8"),
+        1 => {
+            let mut t = TrustAnchors::empty();
+            for l in lines {
+                t.add_u8(l.as_bytes()).expect("add_u8");
+            }
+            t
+        }
+        _ => TrustAnchors::from_reader(std::io::Cursor::new(format!("{text}\n").into_bytes())).expect("from_reader"),
+    }
+}
+
+/// validate_msg on a fresh context made with `with_config`.
+fn validate_cfg(h: &Arc<Hier>, q: &Query, faults: &Arc<Vec<Fault>>, tas: TrustAnchors, cfg: VConfig) -> (Verdict, Vec<u8>) {
+    let st = Arc::new(UpState::default());
+    let up = Upstream { h: h.clone(), faults: faults.clone(), st: st.clone(), main: false, main_ad: false, main_opt: false };
+    let mainup = Upstream { h: h.clone(), faults: faults.clone(), st, main: true, main_ad: false, main_opt: false };
+    let Ok(m) = mainup.respond(&q.name, q.qtype) else { return (Verdict::NoMessage, vec![]) };
+    let vc = ValidationContext::with_config(tas, up, cfg);
+    validate_bytes(&vc, m.as_slice())
+}
+
+struct Expect<'a> {
+    ctx: &'a Ctx,
+    stats: &'a Stats,
+    only: Option<String>,
+}
+
+impl Expect<'_> {
+    /// Report if `v` is not one of `exp`, or Secure without the harness oracle agreeing.
+    fn check(&self, h: &Hier, sig: String, what: String, v: &Verdict, out: &[u8], exp: &[&str], extra: Value) {
+        self.stats.eval();
+        self.stats.distinct(fnv(format!("cfg|{sig}|{what}").as_bytes()));
+        self.stats.count(&format!("anchors-config|{}", v.short()));
+        let replay = json!({"scenario": h.name, "special": "anchors-config", "faults": [], "qname": ".", "qtype": 0, "case": extra});
+        let report = |sig: String, what: String| {
+            if self.only.as_ref().map(|o| *o == sig).unwrap_or(true) {
+                if self.only.is_some() {
+                    println!("  {what}");
+                }
+                self.ctx.violation(&sig, &what, replay.clone());
+            }
+        };
+        if let Verdict::Panic(p) = v {
+            report(format!("C14|validator|panic|{}", panic_sig(p)), format!("validator panicked ({p}): {what}"));
+            return;
+        }
+        if !exp.is_empty() && !exp.contains(&v.short().as_str()) {
+            report(format!("{sig}|expected-{}|reported-{}", exp.join("-or-"), v.short()), format!("{what}: reported {v:?}, expected {exp:?}"));
+        }
+        if v.secure() {
+            for f in check_secure(h, out, "none") {
+                report(f.sig.replace("fault=none", &format!("config={}", sig.rsplit('|').next().unwrap_or(""))), format!("{what}: {}", f.what));
+            }
+        }
+    }
+}
+
+/// Trust-anchor forms / routes and non-default validator configurations.
+fn anchors_and_config(ctx: &Ctx, stats: &Stats, hiers: &[Arc<Hier>], s7: usize, only: Option<String>) {
+    let ex = Expect { ctx, stats, only };
+    let none: Arc<Vec<Fault>> = Arc::new(vec![]);
+    let q = |n: &str, t: u16| Query { name: nm(n), qtype: t };
+    let owner_text = ["." , "tld.", "zone.tld."];
+
+    // ---- trust anchors: (zone, form 0 DNSKEY / 1,2,4 DS digest type, good)
+    let cfgs: Vec<Vec<(usize, u8, bool)>> = vec![
+        vec![(0, 0, true)],
+        vec![(0, 1, true)],
+        vec![(0, 2, true)],
+        vec![(0, 4, true)],
+        vec![(0, 0, false)],
+        vec![(0, 2, false)],
+        vec![(0, 0, false), (0, 2, true)],
+        vec![(0, 2, false), (0, 0, true)],
+        vec![(0, 0, true), (1, 0, true)],
+        vec![(0, 0, false), (1, 2, true)],
+        vec![(1, 0, true)],
+        vec![(1, 4, true)],
+        vec![(2, 2, true)],
+        vec![(2, 0, true), (0, 0, false)],
+        vec![(0, 0, true), (1, 0, false)],
+        vec![(0, 2, true), (2, 0, false)],
+        vec![],
+    ];
+    let aq = [q("www.zone.tld.", T_A), q("nx.zone.tld.", T_A), q("x.w.zone.tld.", T_A), q("www.tld.", T_A), q("zone.tld.", T_DS), q("aaa.", T_TXT), q("nx.", T_A)];
+    let mut jobs: Vec<(usize, usize, u8, usize)> = vec![];
+    for hi in [0usize, 1] {
+        for c in 0..cfgs.len() {
+            for route in 0..3u8 {
+                for qi in 0..aq.len() {
+                    jobs.push((hi, c, route, qi));
+                }
+            }
+        }
+    }
+    jobs.par_iter().for_each(|(hi, c, route, qi)| {
+        let h = &hiers[*hi];
+        let lines: Vec<String> = cfgs[*c]
+            .iter()
+            .map(|(z, form, good)| {
+                let o = owner_text[*z];
+                let owner = nm(o);
+                // a wrong anchor: the key of another zone / a digest with one bit changed
+                let (ktext, krd) = if *good { h.key_texts[*z].clone() } else { h.key_texts[(*z + 1) % 3].clone() };
+                if *form == 0 {
+                    format!("{o} 3600 IN DNSKEY {ktext}")
+                } else {
+                    let mut t = ds_text(&owner, &h.key_texts[*z].1, *form);
+                    if !*good {
+                        let last = t.pop().unwrap();
+                        t.push(if last == '0' { '1' } else { '0' });
+                    }
+                    let _ = krd;
+                    format!("{o} 3600 IN DS {t}")
+                }
+            })
+            .collect();
+        let qq = &aq[*qi];
+        let z = h.classify(&qq.name, qq.qtype).zone();
+        let nearest = cfgs[*c].iter().filter(|a| a.0 <= z).map(|a| a.0).max();
+        let exp: Vec<&str> = match nearest {
+            None => vec!["Indeterminate"],
+            Some(n) => {
+                if cfgs[*c].iter().any(|a| a.0 == n && a.2) {
+                    vec!["Secure"]
+                } else {
+                    vec!["Bogus"]
+                }
+            }
+        };
+        let label: Vec<String> = cfgs[*c].iter().map(|(z, f, g)| format!("{}:{}:{}", ["root", "tld", "zone"][*z], ["dnskey", "ds-sha1", "ds-sha256", "", "ds-sha384"][*f as usize], if *g { "right" } else { "wrong" })).collect();
+        let rname = ["from_u8", "add_u8", "from_reader"][*route as usize];
+        let (v, out) = validate_cfg(h, qq, &none, build_ta(&lines, *route), VConfig::new());
+        ex.check(
+            h,
+            format!("C14|validator|trust-anchors|{}|route={rname}", if label.is_empty() { "none".to_string() } else { label.join("+") }),
+            format!("trust anchors [{}] via {rname}, unmodified answer for {} {} in {}", lines.join(" / "), show(&qq.name), tname(qq.qtype), h.name),
+            &v,
+            &out,
+            &exp,
+            json!({"anchors": lines, "route": rname, "qname": show(&qq.name), "qtype": qq.qtype}),
+        );
+    });
+
+    // ---- Config: tolerated bad signatures
+    let ta = |h: &Hier| TrustAnchors::from_u8(h.ta_text.as_bytes()).expect("trust anchor");
+    let mut jobs: Vec<(u8, u16, usize)> = vec![];
+    for kset in [0u8, 1, 2, 3, 7, 8, 9] {
+        let k = kset.clamp(1, 8) as u16;
+        for n in [0, k.saturating_sub(1), k, k + 1] {
+            for qi in 0..2 {
+                jobs.push((kset, n, qi));
+            }
+        }
+    }
+    jobs.sort();
+    jobs.dedup();
+    let bq = [q("www.zone.tld.", T_A), q("www.zone.tld.", T_TXT)];
+    jobs.par_iter().for_each(|(kset, n, qi)| {
+        let k = (*kset).clamp(1, 8) as u16;
+        let mut cfg = VConfig::new();
+        cfg.set_bad_signatures(*kset);
+        for hi in [0usize, 1] {
+            let h = &hiers[hi];
+            let qq = &bq[*qi];
+            let resp = h.answer(&qq.name, qq.qtype);
+            let sid = resp.sec.iter().flatten().find(|e| e.rr.rtype == T_RRSIG).map(|e| e.id).expect("an RRSIG");
+            let faults = Arc::new(if *n == 0 { vec![] } else { vec![Fault { target: Target::Main, op: Op::ManyBad { id: sid, n: *n } }] });
+            let (v, out) = validate_cfg(h, qq, &faults, ta(h), cfg.clone());
+            let exp: Vec<&str> = if *n <= k { vec!["Secure"] } else { vec![] };
+            ex.check(
+                h,
+                format!("C14|validator|config|set_bad_signatures|bad-signatures-before-the-good-one-{}-limit", if *n <= k { "within" } else { "above" }),
+                format!("set_bad_signatures({kset}) (effective {k}); {n} corrupted RRSIGs in front of the valid one, {} {} in {}", show(&qq.name), tname(qq.qtype), h.name),
+                &v,
+                &out,
+                &exp,
+                json!({"set_bad_signatures": kset, "bad": n, "qname": show(&qq.name), "qtype": qq.qtype}),
+            );
+        }
+        // the zone with a second key of the same tag: one failed attempt per signature is normal
+        let h = &hiers[4];
+        let qq = &bq[*qi];
+        if *n == 0 {
+            let (v, out) = validate_cfg(h, qq, &none, ta(h), cfg.clone());
+            ex.check(h, "C14|validator|config|set_bad_signatures|colliding-key-tag-zone".into(), format!("set_bad_signatures({kset}); unmodified {} {} in {}", show(&qq.name), tname(qq.qtype), h.name), &v, &out, &["Secure"], json!({"set_bad_signatures": kset}));
+        }
+    });
+
+    // ---- Config: NSEC3 iteration limits.  zone.tld. uses 2 iterations (S2) or 150 (S7)
+    let nq = [q("www.zone.tld.", T_A), q("www.zone.tld.", T_TXT), q("nx.zone.tld.", T_A), q("b.zone.tld.", T_A), q("x.w.zone.tld.", T_A), q("x.w.zone.tld.", T_MX), q("zone.tld.", T_DS), q("cn.zone.tld.", T_A)];
+    let mut jobs: Vec<(usize, u16, u16, usize)> = vec![];
+    for hi in [1usize, s7] {
+        for ins in [0u16, 1, 2, 3, 100, 149, 150, 151, 500, 501] {
+            for bog in [0u16, 1, 2, 3, 149, 150, 151, 500, 600] {
+                for qi in 0..nq.len() {
+                    jobs.push((hi, ins, bog, qi));
+                }
+            }
+        }
+    }
+    jobs.par_iter().for_each(|(hi, ins, bog, qi)| {
+        let h = &hiers[*hi];
+        let qq = &nq[*qi];
+        let mut cfg = VConfig::new();
+        cfg.set_nsec3_iter_insecure(*ins);
+        cfg.set_nsec3_iter_bogus(*bog);
+        let (ie, be) = ((*ins).min(500), (*bog).min(500));
+        let iters = match &h.zones[2].denial {
+            Denial::Nsec3 { iters, .. } => *iters,
+            _ => 0,
+        };
+        // does the answer need NSEC3 records of zone.tld.?
+        let needs = h.answer(&qq.name, qq.qtype).sec[1].iter().any(|e| e.rr.rtype == T_NSEC3);
+        let exp: Vec<&str> = if !needs {
+            vec!["Secure"]
+        } else if iters > be {
+            vec!["Bogus", "Insecure"]
+        } else if iters > ie {
+            vec!["Insecure"]
+        } else {
+            vec!["Secure"]
+        };
+        let (v, out) = validate_cfg(h, qq, &none, ta(h), cfg);
+        let rel = |i: u16, l: u16| if i > l { "above" } else { "within" };
+        ex.check(
+            h,
+            format!("C14|validator|config|nsec3-iteration-limits|iterations-{}-insecure-limit-{}-bogus-limit|answer-{}", rel(iters, ie), rel(iters, be), if needs { "uses-nsec3" } else { "without-nsec3" }),
+            format!("set_nsec3_iter_insecure({ins}) set_nsec3_iter_bogus({bog}); zone uses {iters} iterations; unmodified {} {} in {}", show(&qq.name), tname(qq.qtype), h.name),
+            &v,
+            &out,
+            &exp,
+            json!({"insecure": ins, "bogus": bog, "qname": show(&qq.name), "qtype": qq.qtype}),
+        );
+    });
+
+    // ---- Config: CNAME/DNAME chain limit
+    let cq = [(q("c3.zone.tld.", T_A), 3u8), (q("cn.zone.tld.", T_A), 1), (q("x.d.zone.tld.", T_A), 1), (q("www.zone.tld.", T_A), 0), (q("ext.zone.tld.", T_A), 1)];
+    for hi in [0usize, 1] {
+        for nset in [0u8, 1, 2, 3, 4, 11, 100, 200] {
+            for (qq, len) in &cq {
+                let h = &hiers[hi];
+                let mut cfg = VConfig::new();
+                cfg.set_max_cname_dname(nset);
+                let eff = nset.min(100);
+                let (v, out) = validate_cfg(h, qq, &none, ta(h), cfg);
+                let exp: Vec<&str> = if *len <= eff { vec!["Secure"] } else { vec!["Bogus", "Insecure", "Indeterminate"] };
+                ex.check(
+                    h,
+                    format!("C14|validator|config|set_max_cname_dname|chain-{}-limit", if *len <= eff { "within" } else { "above" }),
+                    format!("set_max_cname_dname({nset}); chain of {len} CNAME/DNAME, unmodified {} {} in {}", show(&qq.name), tname(qq.qtype), h.name),
+                    &v,
+                    &out,
+                    &exp,
+                    json!({"max_cname_dname": nset, "qname": show(&qq.name), "qtype": qq.qtype}),
+                );
+            }
+        }
+    }
+
+    // ---- Config: smallest caches and validity limits; one context, every query twice
+    for hi in [0usize, 1, 2] {
+        let h = &hiers[hi];
+        for size in [0u64, 1] {
+            let mut cfg = VConfig::new();
+            cfg.set_max_node_cache(size);
+            cfg.set_max_nsec3_cache(size);
+            cfg.set_max_isig_cache(size);
+            cfg.set_max_usig_cache(size);
+            cfg.set_max_validity(Duration::from_secs(1));
+            cfg.set_max_bogus_validity(Duration::from_secs(0));
+            let up = Upstream { h: h.clone(), faults: none.clone(), st: Arc::new(UpState::default()), main: false, main_ad: false, main_opt: false };
+            let vc = ValidationContext::with_config(ta(h), up, cfg);
+            let all = [nq.to_vec(), aq.to_vec()].concat();
+            for round in 0..2 {
+                for qq in &all {
+                    let (v, out) = validate_bytes(&vc, &h.answer(&qq.name, qq.qtype).encode());
+                    let exp = expected_unmodified(h, qq);
+                    ex.check(
+                        h,
+                        "C14|validator|config|caches-of-one-entry".into(),
+                        format!("all caches limited to {size} (effective 1) entry, round {round}: unmodified {} {} in {}", show(&qq.name), tname(qq.qtype), h.name),
+                        &v,
+                        &out,
+                        &exp,
+                        json!({"cache_size": size}),
+                    );
+                }
+            }
+        }
+    }
+}
+
 /// Verdict of validate_msg for the (faulted) answer with the given trust anchor text ("" = none).
 fn verdict_with_ta(h: &Arc<Hier>, q: &Query, faults: &Arc<Vec<Fault>>, ta: &str) -> Verdict {
     let st = Arc::new(UpState::default());
-    let up = Upstream { h: h.clone(), faults: faults.clone(), st: st.clone(), main: false, main_ad: false };
-    let mainup = Upstream { h: h.clone(), faults: faults.clone(), st, main: true, main_ad: false };
+    let up = Upstream { h: h.clone(), faults: faults.clone(), st: st.clone(), main: false, main_ad: false, main_opt: false };
+    let mainup = Upstream { h: h.clone(), faults: faults.clone(), st, main: true, main_ad: false, main_opt: false };
     let Ok(m) = mainup.respond(&q.name, q.qtype) else { return Verdict::NoMessage };
     let tas = if ta.is_empty() { TrustAnchors::empty() } else { TrustAnchors::from_u8(ta.as_bytes()).expect("trust anchor") };
     let vc = ValidationContext::new(tas, up);
@@ -3210,8 +3594,8 @@ fn judge_history(ctx: &Ctx, stats: &Stats, all: &[Arc<Hier>], h0: usize, steps: 
 }
 
 /// Run one Connection request with flags and report.
-fn judge_flags(ctx: &Ctx, stats: &Stats, h: &Arc<Hier>, q: &Query, faults: &Arc<Vec<Fault>>, ta: bool, flags: (bool, bool, bool, bool), verbose: bool) {
-    let (ad, dok, cd, up_ad) = flags;
+fn judge_flags(ctx: &Ctx, stats: &Stats, h: &Arc<Hier>, q: &Query, faults: &Arc<Vec<Fault>>, ta: bool, flags: (bool, bool, bool, bool, bool), verbose: bool) {
+    let (ad, dok, cd, up_ad, up_opt) = flags;
     let ta_text = if ta { h.ta_text.clone() } else { String::new() };
     let outcome = verdict_with_ta(h, q, faults, &ta_text);
     let Verdict::State(o) = &outcome else {
@@ -3220,10 +3604,10 @@ fn judge_flags(ctx: &Ctx, stats: &Stats, h: &Arc<Hier>, q: &Query, faults: &Arc<
     };
     stats.eval();
     stats.distinct(fnv(format!("flags|{}|{}|{}|{:?}|{ta}|{flags:?}", h.name, show(&q.name), q.qtype, faults).as_bytes()));
-    let (reply, delivered) = run_conn_flags(h, q, faults, &ta_text, ad, dok, cd, up_ad);
+    let (reply, delivered) = run_conn_flags(h, q, faults, &ta_text, ad, dok, cd, up_ad, up_opt);
     stats.count(&format!("connection-flags|outcome={o}"));
     let replay = json!({"scenario": h.name, "special": "connection-flags", "qname": show(&q.name), "qtype": q.qtype, "faults": serde_json::to_value(&**faults).unwrap(),
-        "trust_anchor": ta, "request_ad": ad, "request_do": dok, "request_cd": cd, "upstream_ad": up_ad});
+        "trust_anchor": ta, "request_ad": ad, "request_do": dok, "request_cd": cd, "upstream_ad": up_ad, "upstream_opt": up_opt});
     let req = format!("request-ad={}-do={}-cd={}", ad as u8, dok as u8, cd as u8);
     match reply {
         Err(e) if e.starts_with("panic") => {
@@ -3283,7 +3667,10 @@ fn main() {
         hs("H5-zone-nsec-records-added-and-removed", Some(Denial::Nsec), true, None),
         hs("H6-second-key-published-first-key-signs", n3(1, 2), false, Some((zk.clone(), zrd.clone(), false))),
         hs("H7-second-key-published-second-key-signs", n3(1, 2), false, Some((zk, zrd, true))),
+        // only for the configuration cases
+        hs("S7-nsec3-secure-zone-with-150-iterations", n3(1, 150), false, None),
     ]);
+    let s7 = specs.len() - 1;
     let hiers: Vec<Arc<Hier>> = specs.par_iter().map(|s| Arc::new(build_hier(s.clone(), now))).collect();
     let run = Run { ctx: ctx.clone(), stats: Stats::new(), hiers, verbose: ctx.replay.is_some() };
 
@@ -3303,6 +3690,10 @@ fn main() {
             }
             ctx.finish(json!({"evaluations": 2, "distinct_nontrivial": 0, "rule": "replay", "samples": [c], "exhaustive": false}), &["replay of one case"]);
         }
+        if c["special"].as_str() == Some("anchors-config") {
+            anchors_and_config(&ctx, &run.stats, &run.hiers, s7, v["signature"].as_str().map(|s| s.to_string()));
+            ctx.finish(json!({"evaluations": run.stats.evals(), "distinct_nontrivial": 0, "rule": "replay", "samples": [c], "exhaustive": false}), &["replay: the trust-anchor/configuration block is re-run, only the class of the replay file is reported"]);
+        }
         if c["special"].as_str() == Some("history") {
             let steps: Vec<(usize, Query)> = c["steps"]
                 .as_array()
@@ -3317,7 +3708,7 @@ fn main() {
             let faults: Vec<Fault> = serde_json::from_value(c["faults"].clone()).expect("faults");
             let qq = Query { name: unshow(c["qname"].as_str().unwrap()), qtype: c["qtype"].as_u64().unwrap() as u16 };
             let b = |k: &str| c[k].as_bool().unwrap_or(false);
-            judge_flags(&ctx, &run.stats, &run.hiers[hi], &qq, &Arc::new(faults), b("trust_anchor"), (b("request_ad"), b("request_do"), b("request_cd"), b("upstream_ad")), true);
+            judge_flags(&ctx, &run.stats, &run.hiers[hi], &qq, &Arc::new(faults), b("trust_anchor"), (b("request_ad"), b("request_do"), b("request_cd"), b("upstream_ad"), b("upstream_opt")), true);
             ctx.finish(json!({"evaluations": run.stats.evals(), "distinct_nontrivial": 0, "rule": "replay", "samples": [c], "exhaustive": false}), &["replay of one case"]);
         }
         if let Some(sp) = c["special"].as_str() {
@@ -3345,10 +3736,12 @@ fn main() {
         q("zone.tld.", T_SOA),
         q("deep.nx.zone.tld.", T_A),
         q("explicit.w.zone.tld.", T_A),
+        q("x.d.zone.tld.", T_A),
+        q("c3.zone.tld.", T_A),
         q("y.x.w.zone.tld.", T_A),
     ];
     // ring of non-existent names around every name of zone.tld (incl. before the first and after the last)
-    let ring = vec!["0.zone.tld.", "a.a.b.zone.tld.", "c.b.zone.tld.", "bb.zone.tld.", "d.zone.tld.", "f.zone.tld.", "m.zone.tld.", "nt.zone.tld.", "v.zone.tld.", "x.explicit.w.zone.tld.", "ww.zone.tld.", "wwww.zone.tld.", "zzzz.zone.tld.", "0.tld.", "m.tld.", "zzzzz.tld."];
+    let ring = vec!["0.zone.tld.", "a.a.b.zone.tld.", "c.b.zone.tld.", "bb.zone.tld.", "dd.zone.tld.", "f.zone.tld.", "m.zone.tld.", "nt.zone.tld.", "v.zone.tld.", "x.explicit.w.zone.tld.", "ww.zone.tld.", "wwww.zone.tld.", "zzzz.zone.tld.", "0.tld.", "m.tld.", "zzzzz.tld."];
     // cn.zone.tld. owns a CNAME: query types below and above CNAME (5)
     let cname_queries = vec![q("cn.zone.tld.", T_NS), q("cn.zone.tld.", 28), q("cn.zone.tld.", T_MX), q("cn.zone.tld.", T_TXT)];
     // direct queries for wildcard owner names
@@ -3400,7 +3793,7 @@ fn main() {
 
     // histories: one context, the zone re-signed between the validations
     let hq = vec![q("www.zone.tld.", T_A), q("x.w.zone.tld.", T_A), q("www.zone.tld.", T_TXT), q("nx.zone.tld.", T_A), q("b.zone.tld.", T_A), q("x.w.zone.tld.", T_MX), q("mail.zone.tld.", T_MX), q("cn.zone.tld.", T_A), q("deep.nx.zone.tld.", T_A)];
-    let ns = run.hiers.len() - hist0;
+    let ns = s7 - hist0;
     let mut histories: Vec<Vec<(usize, Query)>> = vec![];
     for s0 in 0..ns {
         for q0 in &hq {
@@ -3434,6 +3827,9 @@ fn main() {
     }
     histories.par_iter().for_each(|st| judge_history(&ctx, &run.stats, &run.hiers, hist0, st, false));
 
+    // trust anchor forms / routes and non-default configurations
+    anchors_and_config(&ctx, &run.stats, &run.hiers, s7, None);
+
     // Connection reply post-processing: request flags {AD, DO, CD} x upstream AD x validation outcome
     let mut flag_cases: Vec<(usize, Query, Arc<Vec<Fault>>, bool)> = vec![];
     let none: Arc<Vec<Fault>> = Arc::new(vec![]);
@@ -3441,6 +3837,10 @@ fn main() {
         for hi in [0usize, 1] {
             flag_cases.push((hi, qq.clone(), none.clone(), true)); // Secure
             flag_cases.push((hi, qq.clone(), none.clone(), false)); // Indeterminate: no trust anchor
+            // Secure, but the TTLs are above the original ones: the validator rewrites the message
+            let resp0 = run.hiers[hi].answer(&qq.name, qq.qtype);
+            let ids: Vec<u16> = resp0.sec.iter().flatten().map(|e| e.id).collect();
+            flag_cases.push((hi, qq.clone(), Arc::new(vec![Fault { target: Target::Main, op: Op::Ttl { ids, mode: 0 } }]), true));
             // Bogus: the first RRSIG of the answer dropped
             let resp = run.hiers[hi].answer(&qq.name, qq.qtype);
             if let Some(e) = resp.sec.iter().flatten().find(|e| e.rr.rtype == T_RRSIG) {
@@ -3453,8 +3853,8 @@ fn main() {
     }
     let mut flag_runs = vec![];
     for (i, _) in flag_cases.iter().enumerate() {
-        for bits in 0..16u8 {
-            flag_runs.push((i, (bits & 1 != 0, bits & 2 != 0, bits & 4 != 0, bits & 8 != 0)));
+        for bits in 0..32u8 {
+            flag_runs.push((i, (bits & 1 != 0, bits & 2 != 0, bits & 4 != 0, bits & 8 != 0, bits & 16 != 0)));
         }
     }
     flag_runs.par_iter().for_each(|(i, fl)| {
@@ -3529,7 +3929,7 @@ fn main() {
             "distinct_nontrivial": run.stats.distinct_count(),
             "rule": "one evaluation = one run of the real validator (validate_msg, or Connection for single faults) on a fresh ValidationContext with the oracle applied; non-trivial = a faulted case in which at least one message delivered to the validator (the validated answer or an upstream DS/DNSKEY response) differs in its octets from the authentic one; distinct by hash of (scenario, query, fault list)",
             "exhaustive": true,
-            "bound": if quick { "quick: scenarios S1,S2,S3,S3b x 17 queries: every single fault of the menu at every position (validate_msg and Connection); S6 (colliding key tag listed first) x 6 queries all single faults, 11 more baselines; CNAME owner x {NS,AAAA,MX,TXT} with the CNAME-to-NODATA replacement; direct wildcard-owner queries (baseline); every second name of the NXDOMAIN ring x every NSEC/NSEC3 swap; all pairs of representative faults (one per kind and position) for 6 queries; three context-reuse cases; all two-step histories of one context over 8 re-signed states of zone.tld. x 9 queries; Connection reply post-processing for request flags {AD,DO,CD} x upstream AD x 48 answers (Secure/Insecure/Bogus/Indeterminate)" } else { "thorough: 6 scenarios x 17 queries: every single fault at every position (validate_msg and Connection); CNAME-owner and wildcard-owner queries; full NXDOMAIN ring x every NSEC/NSEC3 swap; ALL pairs of single faults for all 17 queries of S1,S2,S3,S3b,S5 and pairs of representatives for S6; three context-reuse cases; all two-step histories of one context over 8 re-signed states of zone.tld. x 9 queries and all three-step histories over 4 denial-parameter states x 4 negative queries; Connection reply post-processing for request flags {AD,DO,CD} x upstream AD x 48 answers (Secure/Insecure/Bogus/Indeterminate)" },
+            "bound": if quick { "quick: scenarios S1,S2,S3,S3b x 17 queries: every single fault of the menu at every position (validate_msg and Connection); S6 (colliding key tag listed first) x 6 queries all single faults, 11 more baselines; CNAME owner x {NS,AAAA,MX,TXT} with the CNAME-to-NODATA replacement; direct wildcard-owner queries (baseline); every second name of the NXDOMAIN ring x every NSEC/NSEC3 swap; all pairs of representative faults (one per kind and position) for 6 queries; three context-reuse cases; all two-step histories of one context over 8 re-signed states of zone.tld. x 9 queries; Connection reply post-processing for request flags {AD,DO,CD} x upstream AD x upstream OPT x 60 answers (Secure/Insecure/Bogus/Indeterminate); trust anchors as DNSKEY / DS (SHA-1, SHA-256, SHA-384), right and wrong, at root / tld. / zone.tld., 17 combinations x 3 construction routes x 7 queries; Config: set_bad_signatures x number of bad RRSIGs around the limit, NSEC3 iteration limits 10 x 9 values x zones with 2 and 150 iterations, CNAME/DNAME chain limit, one-entry caches; a DNAME redirection and a 3-CNAME chain in the zone" } else { "thorough: 6 scenarios x 17 queries: every single fault at every position (validate_msg and Connection); CNAME-owner and wildcard-owner queries; full NXDOMAIN ring x every NSEC/NSEC3 swap; ALL pairs of single faults for all 17 queries of S1,S2,S3,S3b,S5 and pairs of representatives for S6; three context-reuse cases; all two-step histories of one context over 8 re-signed states of zone.tld. x 9 queries and all three-step histories over 4 denial-parameter states x 4 negative queries; Connection reply post-processing for request flags {AD,DO,CD} x upstream AD x upstream OPT x 60 answers (Secure/Insecure/Bogus/Indeterminate); trust anchors as DNSKEY / DS (SHA-1, SHA-256, SHA-384), right and wrong, at root / tld. / zone.tld., 17 combinations x 3 construction routes x 7 queries; Config: set_bad_signatures x number of bad RRSIGs around the limit, NSEC3 iteration limits 10 x 9 values x zones with 2 and 150 iterations, CNAME/DNAME chain limit, one-entry caches; a DNAME redirection and a 3-CNAME chain in the zone" },
             "scenarios": run.hiers.iter().take(nh).chain(run.hiers.iter().skip(sx)).map(|h| h.name).collect::<Vec<_>>(),
             "query_plans": plan.len(),
             "cases": cases.len() as u64 + n_pairs.load(AO::Relaxed),
@@ -3541,14 +3941,16 @@ fn main() {
             "upstream_query_budget": BUDGET,
             "context_reuse_across_rrsig_expiry": expiry_json,
             "context_reuse_other": reuse_json,
-            "histories_zone_re_signed": {"states": run.hiers[hist0..].iter().map(|h| h.name).collect::<Vec<_>>(), "queries": hq.len(), "two_step": n_hist2, "three_step": histories.len() - n_hist2,
+            "histories_zone_re_signed": {"states": run.hiers[hist0..s7].iter().map(|h| h.name).collect::<Vec<_>>(), "queries": hq.len(), "two_step": n_hist2, "three_step": histories.len() - n_hist2,
                 "rule": "every ordered pair (state, query) x (state', query') in which the key that signs state' is in the DNSKEY RRset of state (a validated DNSKEY RRset may be kept for its TTL); thorough adds all three-step histories over the four denial-parameter states and four negative queries"},
-            "connection_flag_product": {"answers": flag_cases.len(), "runs": flag_runs.len(), "rule": "request flags {AD,DO,CD} x upstream AD x answers that are Secure / Insecure / Bogus / Indeterminate"},
+            "connection_flag_product": {"answers": flag_cases.len(), "runs": flag_runs.len(), "rule": "request flags {AD,DO,CD} x upstream AD x upstream OPT record x answers that are Secure (also with TTLs to be clamped) / Insecure / Bogus / Indeterminate"},
             "samples": run.stats.samples(),
         }),
         &[
             "the hierarchy is signed by the library's own signer (sign_zone / sign_rrset); its correctness is C12/C13's subject; the harness cross-checks NSEC3 hashes, key tags and DS digests with its own implementations",
             "histories: between the validations only zone.tld. is re-signed (NSEC3 salt / iterations, NSEC<->NSEC3, records added and removed, signing key switched within a constant DNSKEY RRset); the keys of root and tld., the DS RRset and the trust anchor stay constant; a history is only judged if the key signing a later state is in the DNSKEY RRset of the first state, because a validated DNSKEY RRset may be kept for its TTL",
+            "trust anchors: the anchor set nearest to (at or above) the zone of the answer decides: no anchor -> Indeterminate, at least one matching DNSKEY or DS (digest types 1, 2, 4) at that name -> the chain from there is judged, only non-matching ones -> Bogus; identical through from_u8, empty()+add_u8 and from_reader",
+            "Config: with set_bad_signatures(k) an RRset whose valid RRSIG follows n <= k (k clamped to 1..8) corrupted ones is Secure; an answer that needs NSEC3 records of a zone using more iterations than the (clamped) insecure limit is Insecure, above the bogus limit Bogus or Insecure, never Secure, and Secure at or below both limits; a chain of at most set_max_cname_dname CNAME/DNAME records is Secure; cache sizes and validity limits never change a verdict",
             "Connection post-processing oracle (RFC 4035 3.1/3.2, RFC 6840 5.7): AD in the reply iff validated Secure and the request had AD or DO; Bogus gives SERVFAIL without records unless CD; RRSIG/NSEC/NSEC3 only with DO (or when asked for); all other records, rcode and question preserved; the CD bit of the reply is recorded as information only",
             "the validator reads the wall clock: signatures are made for [now-1d, now+1d]; expired / not-yet-valid faults are real re-signings with windows in the past / future",
             "dnssec::validator::nsec is a private module, so nsec_in_range / nsec3_in_range are exercised end-to-end (NXDOMAIN ring x every NSEC/NSEC3 of the zone) instead of as unit calls",
